@@ -101,7 +101,7 @@ def run(cx, out):
     out.rule('R19.2', 'all other Input methods of CountedInput forward to the wrapped input unchanged')
     from . import c08
     n_methods = 0
-    for cfg in lib_cfgs(cx, quick=('A',), thorough=('A', 'B', 'D')):
+    for cfg in lib_cfgs(cx, quick=('D',), thorough=('A', 'B', 'D')):
         facts = cx.facts(cfg)
         unit(out, facts)
         ms = [f for f in facts.methods('Input') if f['kind'] == 'AssocFn' and 'CountedInput' in f['self']]
